@@ -40,11 +40,11 @@ fn is_pure_(expr: &Expression_) -> bool {
     }
 }
 
-/// An operand in a boolean chain, paired with the offset at which a
+/// An operand in a boolean chain, paired with the place at which a
 /// deletion should start if this operand turns out to be a duplicate.
 ///
-/// `delete_from` is the end offset of the operand's left sibling at the
-/// binary operator node, so deleting from there to the end of the
+/// `delete_from` is the position of the operand's left sibling at the
+/// binary operator node, so deleting from its end to the end of the
 /// operand removes ` <op> operand` without crossing a parenthesis
 /// boundary. It is `None` for the leftmost operand, which has no left
 /// sibling, and for the first operand inside parentheses, whose left
@@ -54,7 +54,7 @@ fn is_pure_(expr: &Expression_) -> bool {
 /// including any parentheses that only wrap this operand.
 struct Operand<'a> {
     expr: &'a Expression,
-    delete_from: Option<usize>,
+    delete_from: Option<&'a Position>,
     delete_to: &'a Position,
 }
 
@@ -69,7 +69,7 @@ fn collect_operands<'a>(expr: &'a Expression, op_sym: &BinaryOperatorSymbol) -> 
 fn collect_operands_<'a>(
     expr: &'a Expression,
     op_sym: &BinaryOperatorSymbol,
-    delete_from: Option<usize>,
+    delete_from: Option<&'a Position>,
     result: &mut Vec<Operand<'a>>,
 ) {
     match &expr.expr_ {
@@ -78,7 +78,7 @@ fn collect_operands_<'a>(
             // The right operand's left sibling is the whole left
             // subtree, so deletions start at its end (after any closing
             // parenthesis), not at the previous flattened operand.
-            collect_operands_(rhs, op_sym, Some(lhs.position.end_offset), result);
+            collect_operands_(rhs, op_sym, Some(&lhs.position), result);
         }
         Expression_::Parentheses(paren) => {
             // Deleting from outside the parentheses to an operand
@@ -150,7 +150,9 @@ impl Visitor for RepeatedBoolVisitor {
                             // sibling to the end of this operand.
                             let fixes = if let Some(delete_from) = operand.delete_from {
                                 let mut fix_pos = expr.position.clone();
-                                fix_pos.start_offset = delete_from;
+                                fix_pos.start_offset = delete_from.end_offset;
+                                fix_pos.line_number = delete_from.end_line_number;
+                                fix_pos.column = delete_from.end_column;
                                 fix_pos.end_offset = operand.delete_to.end_offset;
                                 fix_pos.end_line_number = operand.delete_to.end_line_number;
                                 fix_pos.end_column = operand.delete_to.end_column;
